@@ -33,6 +33,29 @@ def run(ctx):
                drv_timeout=3000, timeout=3000)
     if ctx.thorough:
         ctx.stream("views-race", "c09", "Driver/C09.lean", n=20000, seed=ctx.seed * 1000 + 12, race=True, drv_timeout=3000, timeout=3000)
+    run_stage_b(ctx)
+
+
+# ---------------------------------------------------------------------------------------------
+# stage B (heap level): ownership monitor on the real Go heap + abstraction of every dumped root
+RULE_B = ("c09b (stage B): one real iavl.MutableTree over MemDB, 16 short colliding keys, node cache 10000 (store default) / 2 / 0; steps: set ~24% / remove ~28% "
+          "(alternating growing and shrinking phases, 3 of 4 removals hit a present key) / SaveVersion 12% / open a view 8% (GetImmutable | LazyLoadVersion; also missing, "
+          "non-positive and too-new versions) / drop a view 3% / WorkingHash 3% / Rollback 2% / LoadVersion of an older version on the same tree object 3% "
+          "(when it is the version before the latest, the writes of the next block are replayed and re-committed: SaveVersion's idempotent branch) / "
+          "reads 17% (Get, Has, GetByIndex, IterateRange[Inclusive]) through the working tree or a held view; after EVERY step the Go heap below the working root, "
+          "lastSaved, every held view and up to 6 saved versions (all of them every 64 steps) is dumped through a side-effect-free hook "
+          "(object identity, persisted flag, memoised hash, child pointers, cache/disk resolution of lazily loaded children); "
+          "non-trivial = every line; distinct = distinct trace line")
+
+
+def run_stage_b(ctx):
+    ctx.rule(RULE_B)
+    nb = 12000 if ctx.thorough else 900
+    ctx.stream("heap-default", "c09b", "Driver/C09b.lean", n=nb, seed=ctx.seed * 1000 + 21, drv_timeout=3000, timeout=3000)
+    ctx.stream("heap-cache2", "c09b", "Driver/C09b.lean", n=nb if ctx.thorough else 600, seed=ctx.seed * 1000 + 22, args=["-cache", "2"],
+               drv_timeout=3000, timeout=3000)
+    ctx.stream("heap-cache0", "c09b", "Driver/C09b.lean", n=nb if ctx.thorough else 600, seed=ctx.seed * 1000 + 23, args=["-cache", "0", "-keys", "24"],
+               drv_timeout=3000, timeout=3000)
 
 
 def search(ctx):
